@@ -22,7 +22,8 @@ impl SchemaMut {
 		let mut state = WriteCanonicalFormState {
 			w: ErrorConversionWriter(Rabin::default()),
 			named_type_written: vec![false; self.nodes.len()],
-			unnamed_type_being_written: vec![false; self.nodes.len()],
+			unnamed_type_being_written: vec![0; self.nodes.len()],
+			n_named_types_written: 0,
 		};
 		state.write_canonical_form(self, SchemaKey::from_idx(0))?;
 		Ok(state.w.0.finish())
@@ -32,10 +33,15 @@ impl SchemaMut {
 struct WriteCanonicalFormState<W> {
 	w: ErrorConversionWriter<W>,
 	named_type_written: Vec<bool>,
-	/// Arrays, maps and unions that we are currently inside of: meeting one of them again
-	/// means that the schema has a cycle that goes through unnamed types only, which can't
-	/// be written (and would otherwise recurse forever)
-	unnamed_type_being_written: Vec<bool>,
+	/// For the arrays, maps and unions that we are currently inside of: `1 +` the number of
+	/// named types that had been written when we entered them (`0` if we are not inside).
+	/// Meeting one of them again before any new named type got written means that the
+	/// schema has a cycle that goes through unnamed types only, which can't be written
+	/// (and would otherwise recurse forever). Meeting it again after a named type was
+	/// written is fine (`T { f: Vec<T> }` where the same array node is also used elsewhere):
+	/// that named type will be written by reference this time.
+	unnamed_type_being_written: Vec<usize>,
+	n_named_types_written: usize,
 }
 
 impl<W: Write> WriteCanonicalFormState<W> {
@@ -58,6 +64,7 @@ impl<W: Write> WriteCanonicalFormState<W> {
 				Ok(match &mut state.named_type_written[key.idx] {
 					b @ false => {
 						*b = true;
+						state.n_named_types_written += 1;
 						true
 					}
 					true => {
@@ -97,7 +104,7 @@ impl<W: Write> WriteCanonicalFormState<W> {
 				self.w.write_str("\"string\"")?;
 			}
 			RegularType::Union(ref union) => {
-				self.enter_unnamed(key)?;
+				let entered_before = self.enter_unnamed(key)?;
 				self.w.write_char('[')?;
 				for &variant in &union.variants {
 					if !first_time {
@@ -108,21 +115,21 @@ impl<W: Write> WriteCanonicalFormState<W> {
 					self.write_canonical_form(schema, variant)?;
 				}
 				self.w.write_char(']')?;
-				self.unnamed_type_being_written[key.idx] = false;
+				self.unnamed_type_being_written[key.idx] = entered_before;
 			}
 			RegularType::Array(ref array) => {
-				self.enter_unnamed(key)?;
+				let entered_before = self.enter_unnamed(key)?;
 				self.w.write_str("{\"type\":\"array\",\"items\":")?;
 				self.write_canonical_form(schema, array.items)?;
 				self.w.write_char('}')?;
-				self.unnamed_type_being_written[key.idx] = false;
+				self.unnamed_type_being_written[key.idx] = entered_before;
 			}
 			RegularType::Map(ref map) => {
-				self.enter_unnamed(key)?;
+				let entered_before = self.enter_unnamed(key)?;
 				self.w.write_str("{\"type\":\"map\",\"values\":")?;
 				self.write_canonical_form(schema, map.values)?;
 				self.w.write_char('}')?;
-				self.unnamed_type_being_written[key.idx] = false;
+				self.unnamed_type_being_written[key.idx] = entered_before;
 			}
 			RegularType::Enum(ref enum_) => {
 				if should_not_write_only_name(&enum_.name, self)? {
@@ -178,16 +185,16 @@ impl<W: Write> WriteCanonicalFormState<W> {
 }
 
 impl<W> WriteCanonicalFormState<W> {
-	fn enter_unnamed(&mut self, key: SchemaKey) -> Result<(), SchemaError> {
-		match &mut self.unnamed_type_being_written[key.idx] {
-			b @ false => {
-				*b = true;
-				Ok(())
-			}
-			true => Err(SchemaError::new(
+	fn enter_unnamed(&mut self, key: SchemaKey) -> Result<usize, SchemaError> {
+		let generation = self.n_named_types_written + 1;
+		let cell = &mut self.unnamed_type_being_written[key.idx];
+		if *cell == generation {
+			Err(SchemaError::new(
 				"The schema contains a cycle that goes through unnamed types only \
 					(arrays, maps, unions): it has no canonical form",
-			)),
+			))
+		} else {
+			Ok(std::mem::replace(cell, generation))
 		}
 	}
 }
@@ -224,7 +231,8 @@ pub mod verif {
 		let mut state = WriteCanonicalFormState {
 			w: ErrorConversionWriter(String::new()),
 			named_type_written: vec![false; schema.nodes.len()],
-			unnamed_type_being_written: vec![false; schema.nodes.len()],
+			unnamed_type_being_written: vec![0; schema.nodes.len()],
+			n_named_types_written: 0,
 		};
 		state.write_canonical_form(schema, SchemaKey::from_idx(0))?;
 		Ok(state.w.0)
